@@ -118,3 +118,55 @@ Qed.
 
 Lemma gen_AnnualProvisions m ph : K_Minter_AnnualProvisions (gminter_of m) (gph_of ph) = dec_quo (m_prov m) (ph_coef ph).
 Proof. reflexivity. Qed.
+
+(* ---- Params.Validate of x/mint (the set of accepted parameters of C17) ---------------------------------------------------------------------
+   validateMintDenom is taken to succeed (denomination strings are not modelled). *)
+Lemma gen_validatePhases l : K__validatePhases (map gph_of l) = negb (Nat.eqb (length l) 0) && forallb phase_valid l.
+Proof.
+  unfold K__validatePhases. cbv zeta. cbn [negb]. unfold klen. rewrite map_length.
+  destruct l as [|p0 l0]; [reflexivity|]. set (l := p0 :: l0).
+  replace (Z.of_nat (length l) =? 0) with false by (symmetry; apply Z.eqb_neq; subst l; cbn [length]; lia).
+  replace (Nat.eqb (length l) 0) with false by reflexivity. cbn [negb andb].
+  match goal with |- context [kfold _ _ ?f] => set (F := f) end. unfold kfold.
+  assert (Hstop : forall k r, fold_left F k (r, true) = (r, true)).
+  { induction k as [|x k IH]; intros r; cbn [fold_left]; [reflexivity|apply IH]. }
+  assert (Hrun : forall k, fold_left F (map gph_of k) (None, false) = if forallb phase_valid k then (None, false) else (Some false, true)).
+  { induction k as [|p r IH]; cbn [map fold_left forallb]; [reflexivity|].
+    assert (HF : F (None, false) (gph_of p) = if phase_valid p then (None, false) else (Some false, true)).
+    { unfold F, phase_valid. cbv beta iota. cbn [gph_of G_Phase_YearCoefficient G_Phase_Inflation]. rewrite gen_IsEndPhase. cbn [orb].
+      destruct (0 <? ph_coef p); cbn [negb andb]; [|reflexivity]. destruct (ph_infl p <? 0); cbn [negb andb]; [reflexivity|].
+      destruct (is_end_phase p); reflexivity. }
+    rewrite HF. destruct (phase_valid p); cbn [andb]; [apply IH|apply Hstop]. }
+  rewrite Hrun. destruct (forallb phase_valid l); reflexivity.
+Qed.
+
+Lemma gen_mint_Validate P : K_Params_Validate (gparams_of P) = mparams_valid P.
+Proof.
+  unfold K_Params_Validate, mparams_valid, K__validateBlocksPerYear, K__validateExcludeAmount. cbv zeta.
+  cbn [negb gparams_of G_Params_BlocksPerYear G_Params_Phases G_Params_ExcludeAmount].
+  rewrite gen_validatePhases.
+  match goal with |- context [kfold _ _ ?f] => set (F := f) end. unfold kfold, kseq, klen. rewrite map_length, Nat2Z.id.
+  assert (Hstop : forall k r, fold_left F k (r, true) = (r, true)).
+  { induction k as [|x k IH]; intros r; cbn [fold_left]; [reflexivity|apply IH]. }
+  assert (Hrun : forall rest pre, phases P = pre ++ rest ->
+     fold_left F (map Z.of_nat (seq (length pre) (length rest))) (None, false) =
+     if forallb (fun ph => 0 <? phase_blocks_dec P ph) rest then (None, false) else (Some false, true)).
+  { induction rest as [|ph rest IH]; intros pre E; cbn [length seq map fold_left forallb]; [reflexivity|].
+    assert (Hlen : Z.of_nat (length (phases P)) = Z.of_nat (length pre) + 1 + Z.of_nat (length rest))
+      by (rewrite E, app_length; cbn [length]; lia).
+    assert (HF : F (None, false) (Z.of_nat (length pre)) = if 0 <? phase_blocks_dec P ph then (None, false) else (Some false, true)).
+    { unfold F. cbv beta iota. fold (gparams_of P). rewrite gen_getPhaseBlocks by lia.
+      replace (Z.to_nat (Z.of_nat (length pre) + 1 - 1)) with (length pre) by lia. rewrite E, nth_default_mid.
+      destruct (0 <? phase_blocks_dec P ph); reflexivity. }
+    rewrite HF. destruct (0 <? phase_blocks_dec P ph); cbn [andb]; [|apply Hstop].
+    specialize (IH (pre ++ [ph])). rewrite app_length in IH. cbn [length] in IH.
+    replace (length pre + 1)%nat with (S (length pre)) in IH by lia. apply IH. rewrite <- app_assoc. exact E. }
+  specialize (Hrun (phases P) [] eq_refl). cbn [length] in Hrun. rewrite Hrun.
+  rewrite (Z.leb_antisym 0 (bpy P)).
+  destruct (0 <? bpy P); cbn [negb andb]; [|reflexivity].
+  destruct (negb (Nat.eqb (length (phases P)) 0) && forallb phase_valid (phases P)) eqn:E1.
+  - cbn [negb]. apply andb_true_iff in E1. destruct E1 as [E1 E2]. rewrite E1, E2.
+    destruct (forallb (fun ph => 0 <? phase_blocks_dec P ph) (phases P)); destruct (excl P <? 0); reflexivity.
+  - cbn [negb]. destruct (excl P <? 0); cbn [negb andb]; [reflexivity|].
+    destruct (negb (Nat.eqb (length (phases P)) 0)); cbn [andb] in *; [rewrite E1; reflexivity|reflexivity].
+Qed.
